@@ -187,6 +187,17 @@ def install():
         for n in names:
             setattr(cls, n, wrap(cls.__name__ + "." + n, cls.__dict__[n]))
 
+    # dispersion measure, predictor and reader entry points: their array / Quantity / Time arguments are
+    # hashed before and after the call like everything else
+    import pulsarbat.pulsar.predictor as PR
+    import pulsarbat.readers._base as RB
+    for cls, names in ((D.DispersionMeasure, ["time_delay", "sample_delay", "chirp_function", "chirp_from_signal"]),
+                       (PR.PhasePredictor, ["__call__", "f0", "phasepol", "time_at"]),
+                       (RB.BaseReader, ["read", "dask_read", "offset_at", "time_at", "contains"])):
+        for n in names:
+            if n in cls.__dict__:
+                setattr(cls, n, wrap(cls.__name__ + "." + n, cls.__dict__[n]))
+
     def ufunc_targets(args, kwargs):
         out = kwargs.get("out")
         if out is None:
